@@ -576,6 +576,7 @@ func runC18(c *ev.Ctx) {
 		w.close()
 	}
 	c18Pipelined(c)
+	c18PipelinedSmallWrites(c)
 	c18ClientErrors(c)
 	if c.Thorough() {
 		c18Concurrent(c)
@@ -812,5 +813,104 @@ func c18ClientErrors(c *ev.Ctx) {
 		c.Case("cli-errors", true)
 		c.Count("client_error_replies_checked", G*400)
 		cc.fs.Shutdown()
+	}
+}
+
+// c18PipelinedSmallWrites: many small Twrites (1-60 data bytes: frames that fit
+// the receiver's smallest pooled buffer) leave in one write on one connection,
+// and on a second connection at the same time; the backend yields before it
+// looks at the data. Every write stores exactly its own bytes: a decoded
+// payload is not a view into a buffer that the next frame's decoder is about
+// to fill.
+func c18PipelinedSmallWrites(c *ev.Ctx) {
+	r := c.Rand("c18smallw")
+	rounds := c.Sz(40, 1500)
+	for round := 0; round < rounds; round++ {
+		rr := r.Fork(uint64(round))
+		if !c.Mine(round) {
+			continue
+		}
+		c.Begin(fmt.Sprintf("C18 pipelined small writes round %d", round))
+		fs := memfs.New()
+		const nfiles = 4
+		for k := 0; k < nfiles; k++ {
+			fs.MkPath(fmt.Sprintf("/w%d", k), p9.ModeRegular|0644, "")
+		}
+		fs.SetJitter(uint64(round) + c.Seed + 1)
+		fs.NoLog = true
+		srv := p9.NewServer(fs)
+		var ss []*sess
+		ok := true
+		for ci := 0; ci < 2 && ok; ci++ {
+			s, vr := newSess(srv, 1<<16, v7)
+			ok = vr.OK && s.attach(0, "").Errno() == 0
+			for k := 0; k < nfiles && ok; k++ {
+				ok = s.walk(0, uint64(10+k), fmt.Sprintf("w%d", k)).Errno() == 0 && s.open(uint64(10+k), 2).Errno() == 0
+			}
+			ss = append(ss, s)
+		}
+		if !ok {
+			c.Violation("C18:valid-request-refused-over-a-backend-that-accepts-everything:setup", map[string]any{"workload": "pipelined small writes"})
+			for _, s := range ss {
+				s.P.Close()
+			}
+			continue
+		}
+		type wr struct {
+			k    int
+			off  uint64
+			data []byte
+		}
+		n := 16 + rr.Intn(48)
+		var all [2][]wr
+		from := [2]int{ss[0].P.NReplies(), ss[1].P.NReplies()}
+		for ci := 0; ci < 2; ci++ {
+			var batch []byte
+			for i := 0; i < n; i++ {
+				d := make([]byte, 1+rr.Intn(60))
+				for j := range d {
+					d[j] = byte(round*31 + ci*101 + i*7 + j)
+				}
+				w := wr{k: (i + ci) % nfiles, off: uint64((ci*n+i)*64) + uint64(ci)*1_000_000, data: d}
+				all[ci] = append(all[ci], w)
+				fr := wire.Encode(wire.Twrite, uint16(100+i), u(uint64(10+w.k)), w.off, d)
+				ss[ci].P.Expect(fr)
+				batch = append(batch, fr...)
+			}
+			ss[ci].P.SendRaw(batch)
+		}
+		bad := false
+		for ci := 0; ci < 2 && !bad; ci++ {
+			for i := 0; i < n; i++ {
+				res, got, o, d := ss[ci].P.WaitTag(uint16(100+i), from[ci])
+				if !got {
+					hang(c, o, d, "C18:small-writes:request-unanswered", nil)
+					bad = true
+					break
+				}
+				if res.Msg.Type != wire.Rwrite {
+					c.Violation("C18:valid-request-refused-over-a-backend-that-accepts-everything:Twrite", map[string]any{"reply": res.Msg.String()})
+					bad = true
+					break
+				}
+			}
+		}
+		if !bad {
+		check:
+			for ci := 0; ci < 2; ci++ {
+				for i, w := range all[ci] {
+					got := fs.Lookup(fmt.Sprintf("/w%d", w.k)).Data
+					if uint64(len(got)) < w.off+uint64(len(w.data)) || !bytes.Equal(got[w.off:w.off+uint64(len(w.data))], w.data) {
+						c.Violation("C18:small-writes:backend-stored-bytes-that-are-not-the-request's", map[string]any{"connection": ci, "write": i, "len": len(w.data), "in_flight": n})
+						break check
+					}
+				}
+			}
+		}
+		c.Case(fmt.Sprintf("small-writes:%d", n/16), true)
+		c.Count("pipelined_small_writes", int64(2*n))
+		for _, s := range ss {
+			s.P.Close()
+		}
 	}
 }
